@@ -143,6 +143,134 @@ func checkC20(c *Ctx) {
 		}
 	}
 
+	// Boneh-Katz transform of the attributes: the reserved wildcard entry is the last thing written into the
+	// map - a caller attribute that happens to carry the reserved label must not replace it
+	{
+		f := p.Func("abe/cpabe/tkn20/internal/tkn", "", "transformAttrsBK")
+		what := "tkn.transformAttrsBK: nothing is written into the attribute map after the reserved Boneh-Katz entry"
+		if f == nil {
+			c.undecided("C20.cca", what, "anchor function does not resolve", "")
+		} else {
+			var bk, other []*ssa.MapUpdate
+			for _, b := range f.Blocks {
+				for _, in := range b.Instrs {
+					if mu, ok := in.(*ssa.MapUpdate); ok {
+						if _, isConst := mu.Key.(*ssa.Const); isConst {
+							bk = append(bk, mu)
+						} else {
+							other = append(other, mu)
+						}
+					}
+				}
+			}
+			reach := func(from, to *ssa.BasicBlock) bool {
+				seen := map[int]bool{}
+				stack := []*ssa.BasicBlock{from}
+				for len(stack) > 0 {
+					x := stack[len(stack)-1]
+					stack = stack[:len(stack)-1]
+					for _, s := range x.Succs {
+						if s == to {
+							return true
+						}
+						if !seen[s.Index] {
+							seen[s.Index] = true
+							stack = append(stack, s)
+						}
+					}
+				}
+				return false
+			}
+			idx := func(in ssa.Instruction) int {
+				for i, x := range in.Block().Instrs {
+					if x == in {
+						return i
+					}
+				}
+				return -1
+			}
+			var bad []string
+			for _, a := range bk {
+				for _, o := range other {
+					if (a.Block() == o.Block() && idx(o) > idx(a)) || reach(a.Block(), o.Block()) {
+						bad = append(bad, fmt.Sprintf("the entry written at %s can be overwritten by the copy at %s", p.pos(a.Pos()), p.pos(o.Pos())))
+					}
+				}
+			}
+			switch {
+			case len(bk) == 0:
+				c.bad("C20.cca", what, "the reserved entry is never written", p.fnPos(f))
+			case len(bad) > 0:
+				c.bad("C20.cca", what, strings.Join(bad, "; ")+": an attribute with the reserved label changes whether decryption succeeds", p.fnPos(f))
+			default:
+				c.ok("C20.cca", what, fmt.Sprintf("%d write(s) of the reserved entry, %d copy site(s), none after it", len(bk), len(other)), p.fnPos(f))
+			}
+		}
+	}
+	// encapsulation: both ciphertext components of a wire are blinded with the randomness of the wire's slot
+	{
+		f := p.Func("abe/cpabe/tkn20/internal/tkn", "", "encapsulate")
+		what := "tkn.encapsulate: every per-wire component is multiplied by the randomness of the same slot"
+		if f == nil {
+			c.undecided("C20.share", what, "anchor function does not resolve", "")
+		} else {
+			hdrs := loopHeadersOf(f)
+			// per loop and per randomness vector: the index expressions used
+			type key struct {
+				hdr  int
+				base ssa.Value
+			}
+			sets := map[key]map[string][]string{}
+			n := 0
+			for _, b := range f.Blocks {
+				if len(hdrs[b.Index]) == 0 {
+					continue
+				}
+				for _, in := range b.Instrs {
+					cl, ok := in.(*ssa.Call)
+					if !ok || normName(p.staticCalleeName(&cl.Call)) != normName("(*abe/cpabe/tkn20/internal/tkn.matrixG1).rightMult") || len(cl.Call.Args) < 3 {
+						continue
+					}
+					ld, ok := cl.Call.Args[2].(*ssa.UnOp)
+					if !ok {
+						continue
+					}
+					ia, ok := ld.X.(*ssa.IndexAddr)
+					if !ok {
+						continue
+					}
+					n++
+					k := key{hdrs[b.Index][0], ia.X}
+					if sets[k] == nil {
+						sets[k] = map[string][]string{}
+					}
+					d := descVal(ia.Index)
+					sets[k][d] = append(sets[k][d], p.pos(cl.Pos()))
+				}
+			}
+			var bad []string
+			for k, m := range sets {
+				if len(m) > 1 {
+					var ds []string
+					for d, v := range m {
+						ds = append(ds, fmt.Sprintf("%s[%s] at %s", descVal(k.base), d, strings.Join(v, ",")))
+					}
+					sort.Strings(ds)
+					bad = append(bad, strings.Join(ds, " vs "))
+				}
+			}
+			sort.Strings(bad)
+			switch {
+			case n < 3:
+				c.undecided("C20.share", what, fmt.Sprintf("only %d multiplications by an element of a randomness vector found in loops", n), p.fnPos(f))
+			case len(bad) > 0:
+				c.bad("C20.share", what, "within one loop different elements of the randomness vector are used: "+strings.Join(bad, "; "), p.fnPos(f))
+			default:
+				c.ok("C20.share", what, fmt.Sprintf("%d multiplications; within each loop all use the same element of the randomness vector", n), p.fnPos(f))
+			}
+		}
+	}
+
 	tk := "abe/cpabe/tkn20/internal/tkn"
 	dec := p.Func(tk, "", "DecryptCCA")
 	c.guardEachSite(p, "C20.cca", "plaintext only if tag and id both match", dec, -1, latInt(0), "crypto/subtle.ConstantTimeCompare")
